@@ -396,12 +396,23 @@ func (s *Sim) nameAdopted() {
 		if a.pp.Op != b.pp.Op {
 			return a.pp.Op < b.pp.Op
 		}
-		return a.pp.Key < b.pp.Key
+		if a.pp.Key != b.pp.Key {
+			return a.pp.Key < b.pp.Key
+		}
+		// same site, same park point: creation order (goroutine ids grow with creation) rather than arrival order
+		return a.goid < b.goid
 	})
 	for _, t := range us {
-		n := s.anonCount[t.site]
-		s.anonCount[t.site] = n + 1
-		t.Name = fmt.Sprintf("~%s#%d", t.site, n)
+		// An adopted goroutine is named after its creation site and the first thing it asks of the simulator: several
+		// goroutines created at one site in an order nobody controls (Go map iteration inside Sync Gateway, e.g. one
+		// changes feed per channel) are then named by what they do, not by which of them parked first.
+		base := t.site
+		if t.pp != nil && t.pp.Kind == "kv" {
+			base = fmt.Sprintf("%s<%s %s>", t.site, t.pp.Op, normaliseKey(t.pp.Key))
+		}
+		n := s.anonCount[base]
+		s.anonCount[base] = n + 1
+		t.Name = fmt.Sprintf("~%s#%d", base, n)
 		t.prio = Hash64(s.Seed, "prio", t.Name)
 		s.byName[t.Name] = t
 		s.parked[t.Name] = t
@@ -898,6 +909,17 @@ func (s *Sim) Schedule() []string {
 // uuidRe matches the random identifiers (feed names, checkpoint ids) that differ between two executions of
 // the same schedule and must not enter the hashes.
 var uuidRe = regexp.MustCompile(`[0-9a-f]{8}-[0-9a-f]{4}-[0-9a-f]{4}-[0-9a-f]{4}-[0-9a-f]{12}`)
+
+// longTokenRe matches long opaque tokens inside keys (session ids, digests): they may be random and must not enter names.
+var longTokenRe = regexp.MustCompile(`[A-Za-z0-9+/=_-]{20,}`)
+
+func normaliseKey(k string) string {
+	if len(k) >= 20 {
+		k = uuidRe.ReplaceAllString(k, "UUID")
+		k = longTokenRe.ReplaceAllString(k, "*")
+	}
+	return k
+}
 
 func stableOp(op string) string {
 	if len(op) < 36 {
